@@ -42,6 +42,7 @@ ScalarVal(k, var) ==
     [] k = "string" -> Leaf(k, IF var = 1 THEN <<104, 105, 195, 169>> ELSE <<122>>)
     [] k = "bytes" -> Leaf(k, IF var = 1 THEN <<0, 255, 128, 7>> ELSE <<1>>)
 
+BigStr(n) == [j \in 1..n |-> 97 + (j % 26)]
 MaxDepth == 2
 RECURSIVE ValM(_, _, _, _)
 RECURSIVE ValT(_, _, _, _)
@@ -58,9 +59,16 @@ ValM(D, name, var, depth) ==
         LET k == SK(f.ty)
             v == IF (var + i) % 2 = 0 THEN 2 ELSE 1
             deep == depth >= MaxDepth
+            \* messages named Big* exist to carry payloads of 128 bytes and more (length prefixes of two bytes)
+            big == SubSeq(name, 1, 3) = "Big"
         IN IF f.oneof # "" THEN
               (IF f.tag = chosen(f.oneof) /\ var > 0 /\ ~(k = "msg" /\ deep)
                THEN <<[tag |-> f.tag, x |-> ValT(D, f.ty, 1, depth + 1)]>> ELSE <<>>)
+           ELSE IF big /\ f.label = "repeated" /\ k # "msg" /\ var > 0 THEN
+              \* a packed payload of 128 bytes and more: a two-byte length prefix
+              <<[tag |-> f.tag, x |-> [k |-> "rep", es |-> [j \in 1..(IF var = 1 THEN 40 ELSE 17) |-> ScalarVal(k, 1 + (j % 2))]]]>>
+           ELSE IF big /\ k \in {"string", "bytes"} /\ f.label # "map" /\ var > 0 THEN
+              <<[tag |-> f.tag, x |-> Leaf(k, BigStr(IF var = 1 THEN 200 ELSE 130))]>>
            ELSE IF f.label = "repeated" THEN
               (IF var = 0 \/ (k = "msg" /\ deep) THEN <<>>
                ELSE <<[tag |-> f.tag, x |-> [k |-> "rep", es |-> IF var = 1 THEN <<ValT(D, f.ty, 1, depth + 1), ValT(D, f.ty, 2, depth + 1)>>
